@@ -29,6 +29,88 @@ CHECKS = {
     ),
 }
 
+
+CURVE_NOTE = TB + ("Fresh-object oracle: the reference for history "
+                   "independence is the same library run once on a new "
+                   "object with deep-copied arguments (metamorphic; it "
+                   "cannot tell whether one fresh fit is numerically right).")
+CURVE_TECH = ("TLA+ design spec (Curve.tla) model-checked by TLC with "
+              "Assert-ed conformance to the relational contract "
+              "(CurveClauses.tla); TLC state-graph walks replayed into the "
+              "real object and random driver histories, every recorded step "
+              "validated by TLC (CurveTrace.tla)")
+CHECKS.update({
+    "C03": dict(
+        engine="Curve", category="model_checking",
+        text=("Curve.tla (one action per public call, caller-owned objects "
+              "as state) is model-checked per slice of the settings algebra "
+              "(invariants ResultsCurrent, ScanCurrent, NoResultForRefused; "
+              "every canonical successor Assert-ed against the C03_* "
+              "clauses). Transition tours of the labelled state graphs and "
+              "seeded random histories (30 calls, all 15 settings keys, "
+              "failing calls, in-place edits) are executed on synthetic and "
+              "recorded curves; after every call the real object is "
+              "projected (results compared bit-for-bit with a fresh copy, "
+              "optimiser invocations counted) and TLC evaluates the clauses "
+              "on every recorded step."),
+        design_ref="5 (C03), 3.1, 4", note=CURVE_NOTE, technique=CURVE_TECH),
+    "C06": dict(
+        engine="Curve", category="model_checking",
+        text=("ApplyPre/FitPre actions of Curve.tla over valid and "
+              "rejectable requests (unknown step first/last, missing "
+              "prerequisite, wrong order, invalid option value/name), also "
+              "through fit_model and through a caller-owned list/dict edited "
+              "in place; design invariants ReportedIsValid and "
+              "DataMatchesReport; walks and random histories replayed on "
+              "real curves; TLC evaluates the C06_* clauses (bit-identical "
+              "columns vs. fresh curve, raw data constant, rejected request "
+              "not remembered / rejected again, re-apply changes nothing) "
+              "on every recorded step."),
+        design_ref="5 (C06), 3.1", note=CURVE_NOTE, technique=CURVE_TECH),
+    "C09": dict(
+        engine="Curve", category="model_checking",
+        text=("Rate action of Curve.tla on every reachable curve state "
+              "(fresh, preprocessed only, fitted, edited after fit, failed "
+              "requests) x rater catalogue (pseudo 'none', tree and non-tree "
+              "regressors, feature subset, LDA, in-memory (X, y), user "
+              "directory); TLC evaluates the C09_* clauses: never raises, "
+              "-1/0 without a successful current fit, value equals the "
+              "standalone rater on a fresh fitted copy bit-for-bit (so a "
+              "stale cache hit is a violation), [0,10] for tree regressors, "
+              "rating leaves the curve unchanged."),
+        design_ref="5 (C09)", note=CURVE_NOTE, technique=CURVE_TECH),
+    "C10": dict(
+        engine="Curve", category="model_checking",
+        text=("Mutate actions of Curve.tla make TLC generate 'pass, edit in "
+              "place, pass again' and 'returned object edited' behaviours "
+              "for step lists, option dicts and lmfit Parameters; clauses "
+              "C10_ArgsUnchanged (every recorded call, deep snapshot "
+              "before/after), C10_MutateInvisible (a caller-side edit "
+              "changes nothing in the library state), and - through the "
+              "C03/C06 clauses evaluated on the same traces - results equal "
+              "a fresh equal-valued call. Stateless entry points "
+              "(compute_poc x6, model/residual wrappers and model functions "
+              "of all registered models, autosort, rater helpers) are "
+              "checked for unchanged arguments and same-object-vs-deepcopy "
+              "equality."),
+        design_ref="5 (C10)", note=CURVE_NOTE, technique=CURVE_TECH),
+    "C12": dict(
+        engine="Curve", category="model_checking",
+        text=("<<effective state, hash>> observations from fresh objects "
+              "for every catalogue value of every settings key (one key at "
+              "a time; tuple/list, int/float, bool, 'approach'/0 variants; "
+              "adversarial neighbours for a concatenating encoder; every "
+              "Parameter attribute; pipelines; single-sample and "
+              "non-axis data perturbations), from two/three interpreter "
+              "processes with different PYTHONHASHSEED and from random "
+              "histories. TLC computes the effective tuple (EffTuple: "
+              "don't-cares removed in TLA+) and checks equal tuple <=> equal "
+              "hash over all pairs."),
+        design_ref="5 (C12)", note=CURVE_NOTE,
+        technique=("TLA+ EffTuple/HashReport evaluated by TLC over all pairs "
+                   "of recorded hash observations")),
+})
+
 NOT_APPLICABLE = {
     "C01": ("Recovery of ground-truth parameters to optimiser precision is "
             "numerical convergence of lmfit/MINPACK on real-valued data; it "
